@@ -70,6 +70,36 @@ def FileOK (f : Frame) (fl : Nat) : Prop := f.file = if f.native then none else 
 theorem setTopOffset_cons (o : Int) (f : Frame) (r : Stack) :
     setTopOffset o (f :: r) = { f with offset := o } :: r := rfl
 
+theorem foldl_setTopOffset (inner : List Int) : ∀ (f : Frame) (rest : Stack),
+    ∃ o, inner.foldl (fun s o => setTopOffset o s) (f :: rest) = { f with offset := o } :: rest := by
+  induction inner with
+  | nil => intro f rest; exact ⟨f.offset, rfl⟩
+  | cons a r ih =>
+    intro f rest
+    obtain ⟨o, ho⟩ := ih { f with offset := a } rest
+    exact ⟨o, by simpa [List.foldl, setTopOffset] using ho⟩
+
+/-- A direct eval gives the calling frame back exactly as it was at the eval call site – its own file, and the
+    position of the `eval(…)` call – whatever calls the eval code made and HOWEVER it ended: by completing, or by
+    throwing an exception (caught further out).  Positions of later errors in that activation are therefore
+    those of the enclosing source. -/
+theorem direct_eval_restores_frame (off : Int) (k : Nat) (inner : List Int) (exit : Exit) (f : Frame) (rest : Stack) :
+    directEvalCall off k inner exit (f :: rest) = { f with offset := off } :: rest := by
+  obtain ⟨o, ho⟩ := foldl_setTopOffset inner { f with offset := off, file := some k } rest
+  simp only [directEvalCall, setTopOffset_cons, evalProgram, setTopFile]
+  rw [ho]
+  simp [restoreTop]
+
+/-- the straight-line variant (restore written after the body instead of deferred) is skipped by a throw: the
+    frame keeps the eval source and the eval code's last call site -/
+example :
+    let f : Frame := { callee := "f", file := some 0, offset := 40 }
+    let inlineRestore (exit : Exit) (saved : Frame) (s : Stack) : Stack :=
+      let body := [7].foldl (fun s o => setTopOffset o s) (setTopFile 2 s)
+      match exit with | .normal => restoreTop saved body | .throw => body
+    inlineRestore .throw f [f] = [{ f with file := some 2, offset := 7 }] ∧
+    evalProgram 2 [7] .throw f [f] = [f] ∧ evalProgram 2 [7] .normal f [f] = [f] := by decide
+
 /-- completed statements (calls, direct evals) leave nothing behind in the frame but an offset -/
 theorem runPre_shape (pre : List Pre) : ∀ (f : Frame) (rest : Stack),
     ∃ o, runPre pre (f :: rest) = { f with offset := o } :: rest := by
@@ -81,9 +111,9 @@ theorem runPre_shape (pre : List Pre) : ∀ (f : Frame) (rest : Stack),
     | doneCall fm off =>
       obtain ⟨o, ho⟩ := ih { f with offset := atvOf fm off } rest
       exact ⟨o, by simp [runPre, setTopOffset, ho]⟩
-    | directEval off k =>
+    | directEval off k inner exit =>
       obtain ⟨o, ho⟩ := ih { f with offset := off } rest
-      exact ⟨o, by simp [runPre, setTopOffset, ho]⟩
+      exact ⟨o, by simp [runPre, direct_eval_restores_frame, ho]⟩
 
 /- Evaluating an argument list – calls, `new` and direct evals nested in arguments to any depth – touches nothing
    but the offset of the calling frame. -/
@@ -94,7 +124,7 @@ theorem evalArg_shape : ∀ (a : Arg) (f : Frame) (rest : Stack),
   | .call fm off as, f, rest => by
     obtain ⟨o, ho⟩ := evalArgs_shape as f rest
     exact ⟨atvOf fm off, by simp [evalArg, ho, setTopOffset]⟩
-  | .evalDirect off _, f, rest => ⟨off, by simp [evalArg, setTopOffset]⟩
+  | .evalDirect off _, f, rest => ⟨off, by simp [evalArg, direct_eval_restores_frame]⟩
 theorem evalArgs_shape : ∀ (as : Args) (f : Frame) (rest : Stack),
     ∃ o, evalArgs as (f :: rest) = { f with offset := o } :: rest
   | .nil, f, rest => ⟨f.offset, rfl⟩
@@ -460,7 +490,7 @@ example :
 /-- a completed direct eval no longer disturbs the frame: positions after it are found in the function's own file -/
 example :
     let src : Src := [102, 117, 110, 99, 116, 105, 111, 110, 32, 102, 40, 41, 123, 32, 101, 118, 97, 108, 40, 34, 49, 34, 41, 59, 10, 32, 122, 122, 122, 59, 32, 125, 10, 102, 40, 41, 59]  -- 'function f(){ eval("1");\n zzz; }\nf();'
-    let sc : Scenario := { levels := [⟨.direct, .ident, "f", 34, [], 0, .nil⟩], pre := [.directEval 15 1], raise := .withAt 27 }
+    let sc : Scenario := { levels := [⟨.direct, .ident, "f", 34, [], 0, .nil⟩], pre := [.directEval 15 1 [] .normal], raise := .withAt 27 }
     Spec.traceDevs sc = [] ∧
     trace [⟨"", src⟩, ⟨"", [0x31]⟩] 10 sc = [⟨"f", .at "<anonymous>" 2 2⟩, ⟨"", .at "<anonymous>" 3 1⟩] := by
   decide
